@@ -18,8 +18,8 @@ class C14(Prop):
         "mod 2^64, all salts of the installation distinct, OID encodings and contextEngineID absent from the clear part. non-trivial = >= 20 "
         "encrypted datagrams or the counter wrapped; distinct = abstract trace + (first salt, count)"
     )
-    quick_runs = 320
-    thorough_runs = 3000
+    quick_runs = 1200
+    thorough_runs = 12000
 
     def families(self, tier):
         return [("wrap-des", 2), ("wrap-aes", 2), ("random-salt", 3), ("long", 1)]
